@@ -22,10 +22,10 @@ Ev == Trace[l]
 Flag(clause) == Append(bad, [i |-> l, clause |-> clause])
 
 TInit == /\ l = 1 /\ bad = <<>> /\ drift = <<>>
-         /\ patt = <<>> /\ bound = FALSE /\ searched = FALSE /\ perm = <<>> /\ reply = <<>> /\ cols = <<>>
+         /\ patt = <<>> /\ bound = FALSE /\ searched = FALSE /\ perm = <<>> /\ reply = <<>> /\ cols = <<>> /\ its = <<>>
 
 TNew == /\ Ev.op = "New"
-        /\ patt' = Ev.p /\ bound' = FALSE /\ searched' = FALSE /\ perm' = <<>> /\ reply' = <<>> /\ cols' = <<>>
+        /\ patt' = Ev.p /\ bound' = FALSE /\ searched' = FALSE /\ perm' = <<>> /\ reply' = <<>> /\ cols' = <<>> /\ its' = <<>>
         /\ bad' = IF PIsPerm(Ev.p) THEN bad ELSE Flag("NewIsPerm")
         /\ UNCHANGED drift
 
@@ -39,6 +39,16 @@ TSearchCol == /\ Ev.op = "SearchCol"
               /\ SearchCol(Ev.q, Ev.cp, Ev.cq)
               /\ bad' = IF reply' = Ev.res THEN bad ELSE Flag("ColouredOccurrences")
               /\ UNCHANGED drift
+
+\* lazy iterators on the current object, consumed in any interleaving
+TOpenIter == /\ Ev.op = "OpenIter"
+             /\ its' = Append(its, [q |-> Ev.q, got |-> <<>>, done |-> FALSE])
+             /\ UNCHANGED <<patt, bound, searched, perm, reply, cols, bad, drift>>
+TStepIter == /\ Ev.op = "StepIter"
+             /\ StepIter(Ev.it)
+             /\ bad' = IF Ev.stop = its'[Ev.it].done /\ (Ev.stop \/ Ev.res = its'[Ev.it].got[Len(its'[Ev.it].got)])
+                        THEN bad ELSE Flag("ItersIndependent")
+             /\ UNCHANGED drift
 
 AllOcc(q, ps) == [i \in DOMAIN ps |-> POcc(ps[i], q)]
 PredValue(kind, q, ps) ==
@@ -55,7 +65,7 @@ TCol == /\ Ev.op = "Col"
 
 TNext == /\ l <= Len(Trace)
          /\ l' = l + 1
-         /\ (TNew \/ TSearch \/ TSearchCol \/ TPred \/ TCol)
+         /\ (TNew \/ TSearch \/ TSearchCol \/ TPred \/ TCol \/ TOpenIter \/ TStepIter)
 
 \* every invariant of the machine is evaluated at every step of the real execution
 TraceDone == l = Len(Trace) + 1 => PrintT(ToJson([verdict |-> bad, drift |-> drift, n |-> Len(Trace)]))
